@@ -7,7 +7,8 @@ use crate::util::*;
 use rustyline::completion::Completer;
 use rustyline::highlight::{CmdKind, Highlighter, MatchingBracketHighlighter};
 use rustyline::hint::Hinter;
-use rustyline::history::DefaultHistory;
+use rustyline::history::{DefaultHistory, History};
+use rustyline::sqlite_history::SQLiteHistory;
 use rustyline::validate::{ValidationContext, ValidationResult, Validator};
 use rustyline::{
     Cmd, CompletionType, ConditionalEventHandler, Config, Context, EditMode, Editor, Event, EventContext,
@@ -132,6 +133,8 @@ impl Validator for ScriptHelper {
                     )))
                 } else if input.contains("!!") {
                     Ok(ValidationResult::Invalid(Some(" <-- bad".to_owned())))
+                } else if input.contains("~~") {
+                    Ok(ValidationResult::Invalid(Some(String::new())))
                 } else if input.contains("??") {
                     Ok(ValidationResult::Invalid(None))
                 } else if input.ends_with('\\') {
@@ -173,6 +176,8 @@ pub fn main(spec_path: &str) {
     let mut pause = false;
     let mut nprinters = 0usize;
     let mut binds: Vec<(Vec<KeyEvent>, Cmd)> = Vec::new();
+    let mut sqlite: Option<String> = None;
+    let mut history2: Vec<String> = Vec::new();
     for l in spec.lines() {
         let t: Vec<&str> = l.split_whitespace().collect();
         if t.is_empty() {
@@ -212,6 +217,10 @@ pub fn main(spec_path: &str) {
             "pause" => pause = t[1] == "1",
             "printers" => nprinters = t[1].parse().unwrap(),
             "bind" => binds.push((parse_keys(t[1]), parse_cmd(&t[2..]))),
+            // an SQLite history at this path: `history` lines are entered by an earlier session (the database is then
+            // closed and reopened), `history2` lines by the session the reads run in
+            "sqlite" => sqlite = Some(t[1].to_owned()),
+            "history2" => history2.push(parse_str(t[1])),
             _ => panic!("spec line {l}"),
         }
     }
@@ -225,17 +234,54 @@ pub fn main(spec_path: &str) {
         .max_history_size(max_hist)
         .unwrap()
         .build();
-    let mut rl: Editor<ScriptHelper, DefaultHistory> = match Editor::with_config(config) {
-        Ok(rl) => rl,
-        Err(_) => {
-            logln(&log, "R err:init");
-            return;
+    let st = Setup { log: log.clone(), use_helper, script, binds, printer, nprinters, reads, initial, prompt, pause };
+    if let Some(path) = sqlite {
+        let _ = std::fs::remove_file(&path);
+        {
+            let mut h = match SQLiteHistory::open(config, &path) {
+                Ok(h) => h,
+                Err(_) => {
+                    logln(&log, "R err:init");
+                    return;
+                }
+            };
+            for e in &history {
+                let _ = h.add(e);
+            }
         }
-    };
+        let h = SQLiteHistory::open(config, &path).expect("reopen");
+        match Editor::with_history(config, h) {
+            Ok(rl) => drive(rl, st, &history2),
+            Err(_) => logln(&log, "R err:init"),
+        }
+        let _ = std::fs::remove_file(&path);
+    } else {
+        match Editor::<ScriptHelper, DefaultHistory>::with_config(config) {
+            Ok(rl) => drive(rl, st, &history),
+            Err(_) => logln(&log, "R err:init"),
+        }
+    }
+}
+
+struct Setup {
+    log: Log,
+    use_helper: bool,
+    script: Script,
+    binds: Vec<(Vec<KeyEvent>, Cmd)>,
+    printer: bool,
+    nprinters: usize,
+    reads: usize,
+    initial: Option<(String, String)>,
+    prompt: String,
+    pause: bool,
+}
+
+fn drive<I: History>(mut rl: Editor<ScriptHelper, I>, st: Setup, history: &[String]) {
+    let Setup { log, use_helper, script, binds, printer, nprinters, reads, initial, prompt, pause } = st;
     if use_helper {
         rl.set_helper(Some(ScriptHelper { s: script, hl: MatchingBracketHighlighter::new(), calls: Mutex::new(0) }));
     }
-    for h in &history {
+    for h in history {
         let _ = rl.add_history_entry(h.as_str());
     }
     rl.bind_sequence(Event::Any, EventHandler::Conditional(Box::new(Logger(log.clone()))));
@@ -289,7 +335,10 @@ pub fn main(spec_path: &str) {
             Some(Err(rustyline::error::ReadlineError::Eof)) => "R eof".to_owned(),
             Some(Err(rustyline::error::ReadlineError::Interrupted)) => "R int".to_owned(),
             Some(Err(rustyline::error::ReadlineError::Io(e))) => format!("R err:io:{:?}", e.kind()),
-            Some(Err(_)) => "R err:other".to_owned(),
+            Some(Err(e)) => {
+                logln(&log, &format!("E {:?}", e).replace('\n', " "));
+                "R err:other".to_owned()
+            }
         };
         logln(&log, &line);
         if pause {
